@@ -480,7 +480,7 @@ class Gen:
         cls = {"": 1, "u8": 3, "u": 5, "U": 7, "L": 6 if self.tg["wchar"] == "int" else 7}[kind]
         return E(txt, "s%d.%d:%s" % (w, cls, "/".join(map(str, b))), ["string"])
 
-    def gen_one(self, t, bfw, depth, may_partial, nocl=False, nobrace=False, noempty=False):
+    def gen_one(self, t, bfw, depth, may_partial, nocl=False, nobrace=False, noempty=False, nostr=False):
         """(items, complete): undesignated items initialising one sub-object of type t positionally;
         complete = the sub-object was consumed entirely (the cursor stands behind it).
         nobrace: the first item must not begin with `{` (it is the first initialiser of a
@@ -493,7 +493,9 @@ class Gen:
                 self.hist("shape", "braced-scalar")
                 return [([], L([([], e)]))], True
             return [([], e)], True
-        if self.is_strable(t) and rng.random() < 0.45:
+        # nostr: positional items that follow a nested designator; gcc 12 and clang 14 each mis-place a
+        # string literal there (gcc re-initialises the current array, clang drops it), so no reference
+        if self.is_strable(t) and rng.random() < 0.45 and not nostr:
             s = self.string_for(t)
             if s is not None:
                 if rng.random() < 0.3 and not nobrace:
@@ -512,7 +514,7 @@ class Gen:
         out = []
         for idx, (_, ct, w) in enumerate(ch[:k]):
             one, comp = self.gen_one(ct, w, depth + 1, may_partial and idx == k - 1, nocl, nobrace=(idx == 0),
-                                     noempty=isinstance(t, Arr) and idx == 0)
+                                     noempty=isinstance(t, Arr) and idx == 0, nostr=nostr)
             out += one
             if not comp:
                 self.hist("shape", "elided-partial")
@@ -535,6 +537,7 @@ class Gen:
         steps = rng.randint(1, max(1, min(len(chall) + 2, 7)))
         mode = rng.choice(["pos", "pos", "desig", "mixed", "mixed", "override"])
         used_desig = used_pos = False
+        after_nested = False
         for s in range(steps):
             last = s == steps - 1
             if self.budget <= -40:
@@ -549,7 +552,7 @@ class Gen:
                     _, ct, w = chpos[pos]
                     # `{}` (C23) as the first element of an array is not consumed by cproc: avoided
                     one, comp = self.gen_one(ct, w, depth + 1, last, nocl,
-                                             noempty=isinstance(t, Arr) and pos == 0 and not items)
+                                             noempty=isinstance(t, Arr) and pos == 0 and not items, nostr=after_nested)
                     items += one
                     pos += 1
                     used_pos = True
@@ -577,6 +580,7 @@ class Gen:
                 self.hist("designators", "through-anonymous")
             ds = [x for x in ds if x is not None]
             used_desig = True
+            after_nested = len(path) > 1
             self.hist("designators", "depth-%d" % len(ds))
             self.hist("designators", "".join("i" if isinstance(x, int) else "f" for x in ds))
             one, comp = self.gen_one(ct, w, depth + 1, last, nocl)
@@ -596,7 +600,7 @@ class Gen:
                     rest = self.children(at, True)[q + 1:]
                 take = rng.randint(0, len(rest)) if rng.random() < 0.5 else 0
                 for j, (_, rt, rw) in enumerate(rest[:take]):
-                    one, comp = self.gen_one(rt, rw, depth + 1, last and j == take - 1, nocl)
+                    one, comp = self.gen_one(rt, rw, depth + 1, last and j == take - 1, nocl, nostr=True)
                     items += one
                     self.hist("shape", "continue-after-nested-designator")
                     if not comp:
